@@ -37,11 +37,11 @@ pub open spec fn no_cr(l: Seq<u8>) -> bool { forall|i: int| 0 <= i < l.len() ==>
 /// and denote (hex, optional extension, any case, leading zeros) the length of the data that follows; trailer lines are non-empty without CR
 pub open spec fn valid_at(toks: Seq<Tok>, t: int) -> bool {
     match toks[t] {
-        Tok::SizeLine(l, n) => no_cr(l) && l.len() <= 20 && size_line(l) == SizeLine::Data(n) && n > 0 && t + 2 < toks.len()
+        Tok::SizeLine(l, n) => no_cr(l) && l.len() <= crate::chunk::sanity_limit() && size_line(l) == SizeLine::Data(n) && n > 0 && t + 2 < toks.len()
             && toks[t + 1] is Data && toks[t + 1]->Data_0.len() == n && toks[t + 2] is DataEnd,
         Tok::Data(d) => d.len() > 0 && t + 1 < toks.len() && toks[t + 1] is DataEnd,
         Tok::DataEnd => t + 1 < toks.len() && (toks[t + 1] is SizeLine || toks[t + 1] is LastLine),
-        Tok::LastLine(l) => no_cr(l) && l.len() <= 20 && size_line(l) == SizeLine::Last && t + 1 < toks.len() && (toks[t + 1] is TrailerLine || toks[t + 1] is FinalEnd),
+        Tok::LastLine(l) => no_cr(l) && l.len() <= crate::chunk::sanity_limit() && size_line(l) == SizeLine::Last && t + 1 < toks.len() && (toks[t + 1] is TrailerLine || toks[t + 1] is FinalEnd),
         Tok::TrailerLine(l) => no_cr(l) && l.len() > 0 && t + 1 < toks.len() && (toks[t + 1] is TrailerLine || toks[t + 1] is FinalEnd),
         Tok::FinalEnd => t + 1 == toks.len(),
     }
